@@ -51,6 +51,8 @@ pub enum AddShredError {
     Equivocation,
     #[error("shred was invalid and leader did not equivocate")]
     InvalidShred,
+    #[error("shred is malformed in a way that is not attributable to the leader")]
+    MalformedShred,
 }
 
 /// Holds all data corresponding to any blocks for a single slot.
@@ -208,6 +210,20 @@ impl BlockData {
         debug_assert_eq!(header.slot, self.slot);
         let slice_index = header.slice_index;
         let is_last = header.is_last;
+
+        // the data/coding tag is covered neither by the leader's signature nor by the
+        // Merkle path, so anyone can flip it on a genuine shred; drop such a shred
+        // instead of storing it (it would later fail reconstruction and get the leader blamed)
+        let expect_data = *shred.payload().shred_index < RegularShredder::DATA_OUTPUT_SHREDS;
+        if shred.is_data() != expect_data {
+            debug!(
+                "dropping shred {}-{} in slot {} with mismatching type tag",
+                slice_index,
+                shred.payload().shred_index,
+                self.slot
+            );
+            return Err(AddShredError::MalformedShred);
+        }
 
         // first shred for a slice populates the commitment cache;
         // a later shred with a different valid commitment proves leader equivocation
